@@ -155,6 +155,21 @@ func underCRTest(c *Ctx, n ast.Node, info interface{}) bool {
 		switch x := p.(type) {
 		case *ast.FuncDecl, *ast.FuncLit:
 			return false
+		case *ast.BinaryExpr:
+			// `chr == '\r' && peek() == '\n'`: the right operand is evaluated under the left one
+			if x.Op != token.LAND || child != ast.Node(x.Y) {
+				continue
+			}
+			found := false
+			ast.Inspect(x.X, func(m ast.Node) bool {
+				if bl, ok := m.(*ast.BasicLit); ok && bl.Kind == token.CHAR && (bl.Value == `'\r'` || bl.Value == `'\u000d'` || bl.Value == `'\x0d'`) {
+					found = true
+				}
+				return true
+			})
+			if found {
+				return true
+			}
 		case *ast.IfStmt:
 			if child != ast.Node(x.Body) {
 				continue
